@@ -635,7 +635,9 @@ fn parse_non_constant_value(
             // (optionally preceded by a minus sign), so the only way for parsing to
             // fail is if the value does not fit in an i64.
             return match number.item.parse::<i64>() {
-                Ok(integer) => ControlFlow::Break(number.map(|_| NonConstantValue::Integer(integer))),
+                Ok(integer) => {
+                    ControlFlow::Break(number.map(|_| NonConstantValue::Integer(integer)))
+                }
                 Err(_) => ControlFlow::Continue(Diagnostic::new(
                     format!(
                         "The integer `{}` is out of range. Integers must fit in 64 bits.",
